@@ -506,7 +506,7 @@ func (s *UDPSession) Close() error {
 	s.mu.Unlock()
 
 	if s.l != nil { // belongs to listener
-		s.l.closeSession(s.remote)
+		s.l.closeSessionOf(s)
 		return nil
 	}
 
@@ -1505,6 +1505,22 @@ func (l *Listener) closeSession(remote net.Addr) (ret bool) {
 
 	if _, ok := l.sessions[remote.String()]; ok {
 		delete(l.sessions, remote.String())
+		return true
+	}
+	return false
+}
+
+// closeSessionOf removes s from the listener's table - but only s itself. Close
+// marks a session dead before it gets here; in between the listener may already
+// have replaced the dead session with a new one for a peer that reconnected from
+// the same address, and that one must stay.
+func (l *Listener) closeSessionOf(s *UDPSession) (ret bool) {
+	l.sessionLock.Lock()
+	defer l.sessionLock.Unlock()
+
+	key := s.remote.String()
+	if cur, ok := l.sessions[key]; ok && cur == s {
+		delete(l.sessions, key)
 		return true
 	}
 	return false
